@@ -24,7 +24,7 @@ from .c09 import _paths as model_paths
 PROP = "C16"
 LEVEL = "exploration"
 RUNS = {"quick": 400, "thorough": 30000}
-TIME_CAP = {"quick": 400, "thorough": 1500}
+TIME_CAP = {"quick": 400, "thorough": 900}
 SELFCHECK_N = 4
 CHUNK = 2          # runs per worker task (cost-aware: keeps the time cap responsive)
 RULE = ("seeded histories of 2-12 operations from {ls(valid path at any level), ls(invalid path), export} in seeded order on one image "
